@@ -235,7 +235,8 @@ def vacuity(ex):
         labels.append(('final', None))
     def good(res):
         return res == 'sat' or (isinstance(res, list) and all(v == 'sat' for _, v in res))
-    results = run_forked_many(jobs, 420, groups=[lab + str(j) for lab, j in labels], good=good)
+    scale = getattr(getattr(ex, 'cur_contract', None), 'budget', 1) or 1
+    results = run_forked_many(jobs, 420 * scale, groups=[lab + str(j) for lab, j in labels], good=good)
     out = []
     for i, reg in enumerate(regions):
         vs = [r for (lab, j), r in zip(labels, results) if j == i and lab != 'final']
